@@ -98,9 +98,17 @@ impl Prop for C12 {
             big.lockstep = false;
             return Case { conv: big };
         }
+        // sometimes the conversation ends with an EXECUTE of a statement id that is not live (closed
+        // before, or never prepared).  The connection ends there - with or without an ERR for the
+        // client - but the server must not go back to waiting for input with that ERR unflushed.
+        let mut invalid_tail = false;
+        if g.chance(1, 10) && !conv.cmds.iter().any(|sc| matches!(sc.cmd, Cmd::Quit)) {
+            conv.cmds.push(SeqCmd { cmd: Cmd::Execute { id: 900_000 + g.below(50) as u32, params: vec![], send_types: false, flags: 0, iterations: 1 }, seq: 0 });
+            invalid_tail = true;
+        }
         let (len, ends, _) = client_stream_meta(&conv);
         conv.sched = gen_schedule(g, len, &ends);
-        conv.lockstep = g.chance(2, 5);
+        conv.lockstep = invalid_tail || g.chance(2, 5);
         Case { conv }
     }
     fn fixed(&self, tier: Tier) -> Vec<Case> {
@@ -192,7 +200,11 @@ impl Prop for C12 {
             ex.fail("c12-would-block", format!("lock-step client hangs: the server called read() while the client was still waiting for a flushed reply (served {} callbacks, consumed {} of {} bytes)", o.events.len(), o.consumed, o.inbound_len));
             return ex;
         }
-        if !o.result.is_ok() {
+        let invalid_tail = matches!(c.cmds.last().map(|sc| &sc.cmd), Some(Cmd::Execute { id, .. }) if (900_000..900_050).contains(id));
+        if invalid_tail {
+            ex.class("ends-with-execute-of-a-dead-statement-id");
+        }
+        if !o.result.is_ok() && !(invalid_tail && o.result.is_err()) {
             ex.fail("c12-run-result", format!("run_on returned {}", o.result.brief()));
             return ex;
         }
@@ -223,7 +235,7 @@ impl Prop for C12 {
             }
         }
         // everything delivered must have been served by the end
-        if o.consumed == o.inbound_len {
+        if o.consumed == o.inbound_len && !invalid_tail {
             let done = complete_replies(&o.out[..o.flushed], &kinds).unwrap_or(0);
             let quit_at = c.cmds.iter().position(|sc| matches!(sc.cmd, Cmd::Quit)).map(|i| i + 1).unwrap_or(kinds.len());
             if done < quit_at {
